@@ -98,5 +98,5 @@ package bac
 //@        && as(bac.nfcSession.sm, "*iso7816.SecureMessaging").ksEnc === bacKey(xorS(kIfd, bacPlain(bacKey(kSeed, 1), bacRsp)[16:32]), 1)
 //@        && as(bac.nfcSession.sm, "*iso7816.SecureMessaging").ksMac === bacKey(xorS(kIfd, bacPlain(bacKey(kSeed, 1), bacRsp)[16:32]), 2)
 //@        && as(bac.nfcSession.sm, "*iso7816.SecureMessaging").ssc === cat(rndIcc[4:8], rndIfd[4:8])
-//@   assigns bac.nfcSession.sm, bac.nfcSession.lastApduLogEntry, content(bac.nfcSession.apduLog), content(bac.nfcSession.sm), bac.nfcSession.lastSW
+//@   assigns bac.nfcSession.sm, bac.nfcSession.lastApduLogEntry, content(bac.nfcSession.apduLog), content(bac.nfcSession.sm), bac.nfcSession.lastSW, bac.nfcSession.lastProtected
 //@   safety all
